@@ -38,7 +38,8 @@ CLAIMED = {
         "established by resize(), or range reset to the start of the allocation + capacity test/reserve for the source's size + length "
         "taken from the source, on every path); every element-wise loop over several operands advances all its "
         "iterators exactly once per iteration on every path; no comparison or std::equal/mismatch in the array classes and IndexRange "
-        "compares an operand with itself (regularity and equality tests look at both things they are about).",
+        "compares an operand with itself (regularity and equality tests look at both things they are about); Array<N>::resize (N > 1) starts every sub-array outside the recorded "
+        "old outer range from empty before resizing it, so re-exposed rows are zero (defect F18, fixed).",
         technique="static analysis: interval entailment from must-facts over clang CFG, loop-shape invariants, API post-condition summaries",
     ),
     "C05": dict(
